@@ -6,8 +6,13 @@
 //!
 //! ops (sequential; `sched=` = verdict for the op's datagrams in send order, then deliver:
 //!      `d` deliver, `x` drop, `u` duplicate, `l<ms>` delay):
-//!   `hs pase|case sched=…`    a real handshake controller -> device (PaseInitiator / CaseInitiator against the
-//!                             SecureChannel responder); the newest session is used by the following ops
+//!   `hs pase|case sched=… [upd=<ms>:<d|c>]`   a real handshake controller -> device (PaseInitiator / CaseInitiator
+//!                             against the SecureChannel responder); the newest session is used by the following ops;
+//!                             `upd=`: `<ms>` after the op started the device's (`d`) / controller's (`c`) operational
+//!                             certificate and key are replaced (UpdateNOC) - while a Sigma2 / Sigma3 may be waiting
+//!                             for its retransmission
+//!   (`rr` / `rep` with `flaky=<j>`: the builder of request j is NOT idempotent - its output differs on every invocation;
+//!    the transport must refuse to send such a retransmission: the send fails, nothing differing reaches the wire)
 //!   `rr n=<k> sched=…`        k request/response rounds on that session: the controller's application sends a
 //!                             reliable request on a new exchange, the device's application answers with a reliable
 //!                             response on the same exchange, the next request acknowledges it
@@ -33,13 +38,13 @@ use rs_matter::transport::network::NoNetwork;
 use rs_matter::Matter;
 
 use super::sys::{drive, err_code, install_fabric, kvs, newest_secure_session, num, perform, session_ids, Tasks, DEV_NODE, DEV_PW};
-use crate::c19::Keys;
+use crate::c19::{gen_records, mint, GenP, Keys};
 use crate::proto::Out;
 use crate::simnet::{addr_of, Policy, SimNet, Verdict};
 
 const PROTO_APP: u16 = 0x0001;
 
-struct Sched(Rc<RefCell<VecDeque<Verdict>>>, u64);
+pub struct Sched(pub Rc<RefCell<VecDeque<Verdict>>>, pub u64);
 impl Policy for Sched {
     fn decide(&mut self, _: usize, _: usize, _: &[u8], seq: u64) -> Verdict {
         if seq > 3000 {
@@ -58,7 +63,7 @@ impl Policy for Sched {
     }
 }
 
-fn parse_sched(s: &str) -> VecDeque<Verdict> {
+pub fn parse_sched(s: &str) -> VecDeque<Verdict> {
     s.split('.')
         .filter(|x| !x.is_empty())
         .map(|x| match x.as_bytes()[0] {
@@ -68,6 +73,20 @@ fn parse_sched(s: &str) -> VecDeque<Verdict> {
             _ => Verdict::Deliver,
         })
         .collect()
+}
+
+/// UpdateNOC on the node's only fabric: same node id and root, a new operational key + certificate (what the
+/// `UpdateNOC` command does through `Fabrics::update`)
+fn update_fabric<C: rs_matter::crypto::Crypto>(crypto: &C, keys: &Keys, m: &Matter, node: u64, kn: u64) -> bool {
+    let p = GenP { fab: 7, node, cats: vec![], rca: 3, ica: None, nb: 1, na: 0, kr: 0, ki: 1, kn };
+    let (_root, _icac, noc) = gen_records(&p);
+    let Ok(nb) = mint(crypto, keys, &noc) else { return false };
+    let sk = keys.key(noc.pk).sk;
+    m.with_state(|st| {
+        st.fabrics
+            .update(crypto, core::num::NonZeroU8::new(1).unwrap(), rs_matter::crypto::CanonPkcSecretKeyRef::new(&sk), &nb, &[])
+            .is_ok()
+    })
 }
 
 /// the application on either node: answers every message `[tag, j, last]` with `[tag, j, 0xEE]`, reliably
@@ -93,11 +112,18 @@ impl ExchangeHandler for App {
 }
 
 /// the requesting side: `n` messages `[tag, j, last]`, each answered; the last answer is acknowledged
-async fn rounds(mut ex: Exchange<'_>, tag: u8, n: u8) -> Result<(), Error> {
+/// `flaky = Some(j)`: the builder of request `j` is NOT idempotent (it writes the number of its invocation):
+/// a retransmission of that request would differ from the original
+async fn rounds(mut ex: Exchange<'_>, tag: u8, n: u8, flaky: Option<u8>) -> Result<(), Error> {
     for j in 0..n {
         let last = j + 1 >= n;
+        let mut calls = 0u8;
         ex.send_with(|_, wb| {
+            calls += 1;
             wb.append(&[tag, j, last as u8, 0xa5])?;
+            if flaky == Some(j) {
+                wb.append(&[calls])?;
+            }
             Ok(Some(MessageMeta::new(PROTO_APP, 0x02, true)))
         })
         .await?;
@@ -149,6 +175,8 @@ pub fn run_case(kind: &str, ops: &[String]) -> Vec<String> {
         })));
     }
     let results: RefCell<Vec<String>> = RefCell::new(Vec::new());
+    let upd_n = std::cell::Cell::new(0u64);
+    let upd_fail = std::cell::Cell::new(false);
     {
         let script = async {
             // (controller session, device session) of the newest handshake
@@ -164,11 +192,26 @@ pub fn run_case(kind: &str, ops: &[String]) -> Vec<String> {
                     "hs" => {
                         let kind = w.get(1).copied().unwrap_or("pase");
                         let (bc, bd) = (session_ids(&ctl), session_ids(&dev));
-                        let r = async {
+                        let upd: Option<(u64, bool)> = m.get("upd").and_then(|u| {
+                            let (ms, who) = u.split_once(':')?;
+                            Some((ms.parse().ok()?, who == "d"))
+                        });
+                        let updater = async {
+                            if let Some((ms, on_dev)) = upd {
+                                Timer::after(Duration::from_millis(ms.min(20_000))).await;
+                                upd_n.set(upd_n.get() + 1);
+                                let kn = 5 + (upd_n.get() % 3);
+                                let ok = if on_dev { update_fabric(&crypto, &keys, &dev, DEV_NODE, kn) } else { update_fabric(&crypto, &keys, &ctl, 100, kn) };
+                                if !ok {
+                                    upd_fail.set(true);
+                                }
+                            }
+                        };
+                        let hsf = async {
                             let ex = Exchange::initiate_plaintext(&ctl, &crypto, addr_of(0)).await?;
                             perform(kind, &ctl, &crypto, ctl_fab, DEV_PW, ex).await
-                        }
-                        .await;
+                        };
+                        let (r, _) = embassy_futures::join::join(hsf, updater).await;
                         // the responder still waits for the acknowledgement of its last message
                         Timer::after(Duration::from_millis(3_000)).await;
                         match r {
@@ -179,7 +222,7 @@ pub fn run_case(kind: &str, ops: &[String]) -> Vec<String> {
                                 }
                                 _ => "err:nosession".into(),
                             },
-                            Err(e) => format!("err:{}", err_code(&e)),
+                            Err(e) => format!("err:{}{}", err_code(&e), if upd_fail.get() { ":updfail" } else { "" }),
                         }
                     }
                     "rr" | "rep" => match cur {
@@ -187,12 +230,12 @@ pub fn run_case(kind: &str, ops: &[String]) -> Vec<String> {
                         Some((c, d)) => {
                             let r = if w[0] == "rr" {
                                 match Exchange::initiate_for_session(&ctl, &crypto, c) {
-                                    Ok(ex) => rounds(ex, tag, n).await,
+                                    Ok(ex) => rounds(ex, tag, n, num(&m, "flaky").map(|f| f as u8)).await,
                                     Err(e) => Err(e),
                                 }
                             } else {
                                 match Exchange::initiate_for_session(&dev, &crypto, d) {
-                                    Ok(ex) => rounds(ex, tag, n).await,
+                                    Ok(ex) => rounds(ex, tag, n, num(&m, "flaky").map(|f| f as u8)).await,
                                     Err(e) => Err(e),
                                 }
                             };
